@@ -169,9 +169,15 @@ CLAIMED = {
              "program_t::feasible + the status decision of solver_t::done RE-TRANSLATED from src/program/solver.cpp on every run. Proved in exact arithmetic: normalisation keeps the feasible set and the arg-min, the "
              "reported fx is the caller's objective at x, u >= 0 and Gx < h are loop invariants, converged <=> the done test on the iterate's own residuals, and for convex Q, u >= 0, x* feasible: "
              "f(x) - f(x*) <= eta + |rdual| |x - x*| + |v| |rprim| (the statement's bound shape); seven restatement equivalences (row scaling, duplicated / combined equalities, objective scaling, row and variable permutations) "
-             "preserve the feasible set and arg-min (19 theorems). Correspondence: every logged iteration recomputed from (x,u,v),(dx,du,dv) and the caller's program; python oracle with exact rational KKT check, Bland simplex "
-             "and active-set enumeration decides the four inequalities of the statement.",
-        note=NOTE_COMMON + "'Never converged on an infeasible/unbounded program' and the 1e-6 margins are numerical claims: oracle-tested only."),
+             "preserve the feasible set and arg-min (19 theorems). Gap-closing round (13 further theorems): the KKT system handed to LDLT is modelled and any exact solution of it is proved to be the Newton direction of the "
+             "residual map (dual and primal residuals scale by 1 - s, the linearised centrality holds), so the LDLT oracle's contract is 'solves this system' and is monitored on every iteration; the whole loop with its six exits: "
+             "status <-> exit equivalences (converged <=> feasible and eta, |rdual|, |rprim| < eps of the RETURNED state; the 'no further progress' exit cannot report converged from eta alone; failed <=> the non-finite exit; never "
+             "max_iters), the returned point keeps Gx < h and u > 0 for every oracle; solve_converged_gap_bound END TO END: whenever converged is reported f(x) - f(x*) <= mufx eps (1 + |x - x*|_2 + |v|_1) against every feasible "
+             "point of the caller's convex program, with no hypothesis about the run; rows with the row space of [A|b] have the same solution set (the reduce contract, monitored with exact rational rank); a start found by "
+             "make_strictly_feasible is strictly interior, a user x0 is accepted iff strictly inside; m_kkt <= eps <=> the KKT conditions within eps. Correspondence: every logged iteration recomputed from (x,u,v),(dx,du,dv) and the "
+             "caller's program, the whole loop re-run from the logged Newton answers; python oracle with exact rational KKT check, Bland simplex and active-set enumeration decides the four inequalities of the statement.",
+        note=NOTE_COMMON + "'Never converged on an infeasible/unbounded program' and the 1e-6 margins are numerical claims: oracle-tested only. One open known finding (converged with |x| = 2e18 where the float residuals are pure "
+             "cancellation). Eigen's LDLT misses the system on regular indefinite KKT matrices in about 2% of the steps (counted; the effect is failure to converge, never a false converged)."),
     "C06": dict(
         category="proof", technique=TECH_GEN, design="DESIGN.md §4 C06",
         text="The sub-gradient inequality f(z) >= f(x) + g(x).(z-x) (+ mu/2 |z-x|^2 where declared) is proved for the kernels of every loss flagged convex (mae, mse, hinge, squared hinge, pinball, exponential, logistic, "
@@ -222,9 +228,16 @@ CLAIMED = {
              "feature, learner, linear model, the 8 weak learners and the gboost model are modelled; library version, hash version and the hash_combine expression are RE-TRANSLATED from the source on every run. Proved for every "
              "well-formed object: decode(encode x ++ rest) = (x, rest) and every strict prefix of every valid stream is rejected, for each combinator and each format; tensor header mismatches, unknown factory ids / parameter tags "
              "and newer versions are rejected; hash_combine is injective in the element, so corrupting the last payload element is always detected and any payload corruption is detected iff the 64-bit fold differs "
-             "(55 theorems, core Lean only; full payload-corruption detection is `_partial`: collision-freedom is not provable). Correspondence: real streams of configured / fitted objects decoded and re-encoded by the model to identical "
-             "bytes with equal fields, EVERY truncation offset and single-byte corruptions: accept / reject and decoded value must agree; ASan in the thorough tier.",
-        note=NOTE_COMMON + "Little-endian x86-64 memory layout is assumed; payloads are opaque bytes; header corruptions that keep the element count are accepted by code and model alike (outside the statement)."),
+             "(55 theorems, core Lean only). Gap-closing round (30 further theorems): the READERS AS CODED (sticky failbit stream, the per-character string loop, vector / factory / dims loops, the tensor reader's five-field chain, the "
+             "configurable's three criticals, learner / linear / gboost readers) are modelled as procedures and proved to implement their codecs (same value and rest on success, failed stream or exception exactly when the codec "
+             "refuses, nothing repaired on a failed stream), so round-trip and prefix rejection hold for the procedures; the version condition is exactly lexicographic <= library version, component by component; the hash fold: "
+             "hash_combine is NOT injective in the running hash (kernel-checked collision), one fold moves the lowest differing bit down by exactly 2, hence replacing any element is refused when the lowest changed bit p satisfies "
+             "2 (elements after it) <= p, and a kernel-checked single-BIT flip of a 2-element double tensor is ACCEPTED - the payload clause is violated on the unchanged tree (open known finding, keyed on true collisions only; "
+             "`tensor_payload_corruption_partial` is shown sharp). Correspondence: real streams of configured / fitted objects (incl. data sources, the program solver, strings up to 5000 bytes) decoded and re-encoded by the model to "
+             "identical bytes with equal fields, EVERY truncation offset, single-byte corruptions, reads into DIRTY destination objects, a version grid, a scalar self-test of width / endianness / sign extension: accept / reject and "
+             "decoded value must agree; ASan in the thorough tier.",
+        note=NOTE_COMMON + "Little-endian x86-64 memory layout is assumed and self-tested; payloads are opaque bytes; header corruptions that keep the element count are accepted by code and model alike (outside the statement); "
+             "feature_t::read / parameter_t::read are codec-level models with the procedure contract as hypothesis."),
     "C18": dict(
         category="other", technique="Lean 4 proof of the sharing discipline on the C17/C13/C16 models (partial) + source scan re-generated on every run; concurrent-vs-sequential runs and ThreadSanitizer are tests", design="DESIGN.md §4 C18",
         text="PARTIAL. A data race is a fact about the C++ memory model and the compiled code that no Lean model of the library exhibits, so 'no data races' and 'bit-identical results' are not proved. Proved (11 theorems, all schedules): "
